@@ -168,9 +168,32 @@ def piv_unb_job(fn='findNonBasicForPivotByBland'):
                pre_includes=('stubs/gmp_types.h', 'stubs/std_types.h', 'contracts/C26/types.h'), harness=H_PIV_UNB.replace('Simplex__findNonBasicForPivotByBland', 'Simplex__' + fn), enforce=False, loop_contracts=True, aux_tu=C15.TU,
                stubs=C15.POOL_STUBS + PIV_STUBS + ('opensmt::isPositive',), opaque=('opensmt::Simplex', 'opensmt::LRAModel', 'opensmt::Tableau', 'opensmt::LABoundStore'), min_obligations=5, timeout=1200, object_bits=12, expected_wrap=C15.WRAP,
                proves='for a row of ANY length: pivot selection reports no variable exactly when no row term has room in the helpful direction')
+H_PRED = '''static void mk_q(struct FastRational *x) { static const t_word NUM[8] = { 0, 1, -1, 2, -3, 1, -1, 7 }; static const t_uword DEN[8] = { 1, 1, 1, 1, 1, 2, 3, 4 };
+  t_uchar k = nondet_uchar() & 7; x->state = 1; x->num = NUM[k]; x->den = DEN[k]; x->mpq = (mpq_ptr)0; }
+static void mk_d(struct Delta *d) { mk_q(&d->r); mk_q(&d->d); }
+void harness(void) {
+  mk_d(&h_val); mk_d(&h_lbd); mk_d(&h_ubd); h_haslb = nondet_bool(); h_hasub = nondet_bool();
+  struct LVRef v; v.x = 3;
+  t_bool under = Simplex__isModelStrictlyUnderUpperBound((struct Simplex *)0, v), over = Simplex__isModelStrictlyOverLowerBound((struct Simplex *)0, v);
+  t_bool outU = Simplex__isModelOutOfUpperBound((struct Simplex *)0, v), outL = Simplex__isModelOutOfLowerBound((struct Simplex *)0, v);
+  __CPROVER_assert(under == (!h_hasub || d_cmp(&h_val, &h_ubd) < 0), "strictly under the upper bound: no upper bound, or value < bound in Q_delta (the infinitesimal part counts)");
+  __CPROVER_assert(over == (!h_haslb || d_cmp(&h_val, &h_lbd) > 0), "strictly over the lower bound: no lower bound, or value > bound in Q_delta (the infinitesimal part counts)");
+  __CPROVER_assert(outU == (h_hasub && d_cmp(&h_val, &h_ubd) > 0), "out of the upper bound: there is one and value > bound in Q_delta");
+  __CPROVER_assert(outL == (h_haslb && d_cmp(&h_val, &h_lbd) < 0), "out of the lower bound: there is one and value < bound in Q_delta");
+  OSMT_REACH("return");
+}
+'''
+def pred_job():
+    return Job('modelPredicates.R', 'src/tsolvers/lasolver/Simplex.cc', 'opensmt::Simplex::isModelStrictlyUnderUpperBound', tier='R', header='contracts/C26/predicates.h', harness=H_PRED, enforce=False, aux_tu=C15.TU,
+               extra_roots=('opensmt::Simplex::isModelStrictlyOverLowerBound', 'opensmt::Simplex::isModelOutOfUpperBound', 'opensmt::Simplex::isModelOutOfLowerBound'),
+               pre_includes=('stubs/gmp_types.h', 'stubs/std_types.h', 'contracts/C26/types.h'),
+               stubs=C15.POOL_STUBS + ('opensmt::LRAModel::read', 'opensmt::LRAModel::hasLBound', 'opensmt::LRAModel::hasUBound', 'opensmt::LRAModel::Lb', 'opensmt::LRAModel::Ub', 'opensmt::FastRational::compare', 'opensmt::FastRational::operator=='),
+               opaque=('opensmt::Simplex', 'opensmt::LRAModel', 'opensmt::Tableau', 'opensmt::LABoundStore'), default_unwind=4, min_obligations=4, object_bits=12, timeout=900,
+               bounded_note='model value and bounds drawn from 8 rationals (0, 1, -1, 2, -3, 1/2, -1/3, 7/4) in both components',
+               proves='the model predicates asked by the pivot selection compare value and bound in Q_delta, infinitesimal part included')
 def jobs(tier):
     return [unb_job(), expl_job(4)] + ([expl_job(5)] if tier == 'thorough' else []) + [
-            piv_job('findNonBasicForPivotByBland', 'opensmt::Simplex::findNonBasicForPivotByBland'), piv_job('findNonBasicForPivotByHeuristic', 'opensmt::Simplex::findNonBasicForPivotByHeuristic'), ab_job(), se_job(), se_unb_job(), piv_unb_job(), piv_unb_job('findNonBasicForPivotByHeuristic')]
+            piv_job('findNonBasicForPivotByBland', 'opensmt::Simplex::findNonBasicForPivotByBland'), piv_job('findNonBasicForPivotByHeuristic', 'opensmt::Simplex::findNonBasicForPivotByHeuristic'), ab_job(), se_job(), se_unb_job(), piv_unb_job(), piv_unb_job('findNonBasicForPivotByHeuristic'), pred_job()]
 def info(tier, results):
     return {'level': 'proof', 'trusted_base': ['clang 14 AST', 'osmt2c lowering', 'CBMC 6.11 (dfcc loop contracts)'],
             'assumptions': ['in the unbounded job FastRational::isZero / isNegative / unary minus / copy on coefficients are by contract and coefficients are machine-word rationals other than INT_MIN (the GMP path is decided by the bounded job)', 'the tableau row of a basic variable x is the equation x = sum a_k*y_k over pairwise different non-basic variables with a_k != 0 (Tableau/Polynomial invariant, not verified)',
